@@ -421,3 +421,44 @@ func clu8Guard(d time.Duration, f func()) (bool, string) {
 		return false, dump
 	}
 }
+
+// clu8ExecLeader executes idempotent statements on whoever is leader, retrying while leadership
+// is moving (a leader may step down right after a membership change on a loaded machine).
+func clu8ExecLeader(c *clu8Cluster, timeout time.Duration, stmts ...string) error {
+	deadline := time.Now().Add(timeout)
+	var err error
+	for {
+		l := c.Leader(10 * time.Second)
+		if l != nil {
+			if err = clu8Exec(l.S, stmts...); err == nil {
+				return nil
+			}
+		} else {
+			err = errors.New("no leader")
+		}
+		if time.Now().After(deadline) {
+			return err
+		}
+		time.Sleep(100 * time.Millisecond)
+	}
+}
+
+// clu8JoinRetry joins n through whoever is leader, retrying on ErrNotLeader.
+func clu8JoinRetry(c *clu8Cluster, n *clu8Node, voter bool, timeout time.Duration) error {
+	deadline := time.Now().Add(timeout)
+	var err error
+	for {
+		l := c.Leader(10 * time.Second)
+		if l != nil {
+			if err = l.S.Join(joinRequest(n.Name, n.Addr, voter)); err == nil {
+				return nil
+			}
+		} else {
+			err = errors.New("no leader")
+		}
+		if time.Now().After(deadline) {
+			return err
+		}
+		time.Sleep(100 * time.Millisecond)
+	}
+}
